@@ -860,3 +860,17 @@ M("C11.hour_period_truncates_to_day", ["C11"], "emitter/file/src/lib.rs",
 
 M("C15.rev_fix_underscore_segment_start", ["C15"], "core/src/path.rs",
   "c if separators % 2 == 0 && (is_xid_start(c) || c == '_') => {", "c if separators % 2 == 0 && is_xid_start(c) => {", "C15.R3")
+
+# ---- builder discipline (common.builder_rules) -------------------------------------------------------------------
+M("C11.builder_size_stored_in_max_files", ["C11"], "emitter/file/src/lib.rs",
+  "        self.max_file_size_bytes = max_file_size_bytes;\n        self",
+  "        self.max_files = max_file_size_bytes;\n        self", "C11.builder")
+M("C01.event_map_props_drops_extent", ["C01"], "core/src/event.rs",
+  """            mdl: self.mdl,
+            extent: self.extent,
+            tpl: self.tpl,
+            props: map(self.props),""",
+  """            mdl: self.mdl,
+            extent: None,
+            tpl: self.tpl,
+            props: map(self.props),""", "C01.builder")
